@@ -662,14 +662,19 @@ def main(argv) -> int:
         add({"type": "explore", "kind": "bounded", "config": "3-workers-same-model/chunks=2/preemptions<=2",
              "specs": [(a, 2), (a, 2), (a, 2)], "max_preemptions": 2}, 0.85)
         n_sample_jobs, n_per = 16, 200
+    if not quick:
+        # the exhaustive claim needs all crash points: queue them before the samples
+        for job in crash_jobs:
+            add(job, 0.85)
     for index in range(n_sample_jobs):
         m1 = str(rng.choice(model_paths))
         m2 = m1 if rng.random() < 0.7 else str(rng.choice(model_paths))
         add({"type": "sample", "config": f"3-workers/{'same' if m1 == m2 else 'two'}-models/sampled",
              "specs": [(m1, rng.choice([2, 3, 4])), (m1, 2), (m2, rng.choice([2, 3]))],
              "index": index, "n": n_per, "p_kill": 0.1, "p_inject": 0.15}, 0.7 if quick else 0.8)
-    for job in crash_jobs:
-        add(job, 0.75 if quick else 0.85)
+    if quick:
+        for job in crash_jobs:
+            add(job, 0.75)
 
     stress_models = [small[i] for i in order[:2]]
     stress_refs: Dict[Tuple[str, str], Dict[str, Any]] = {}
